@@ -428,23 +428,26 @@ void xv_env(void) {          /* other threads: any slot word, any entry state, a
 void h_scan_int(void) {
 #ifdef XV_INT
   havoc_state();
-  unsigned j = nondet_uint(); XV_ASSUME(j < NN);
   env_on = 1;
   SCAN(&local_thread_data);
   env_on = 0;
   check_order_obligations(); check_gather_complete();
-  _Bool wf; unsigned len = chain_len(local_thread_data.retire_list, &wf); unsigned o = occ(local_thread_data.retire_list, NODE(j));
+  _Bool wf; unsigned len = chain_len(local_thread_data.retire_list, &wf);
   XV_OBL(OBL_CONSERVE, wf && local_thread_data.number_of_retired_nodes == len && !g_double_delete);
-  if (is_own(j) || is_adopted(j)) {
-    XV_OBL(OBL_CONSERVE, (npool(j).deleted == 1 && o == 0) || (npool(j).deleted == 0 && o == 1));
-    /* what was read decides: deleted => not in the set of words read from entries seen active (checked at every delete_self); kept => it is in that set */
+  for (unsigned j = 0; j < NN; j++) {
+    unsigned o = occ(local_thread_data.retire_list, NODE(j));
+    if (is_own(j) || is_adopted(j)) {
+      XV_OBL(OBL_CONSERVE, (npool(j).deleted == 1 && o == 0) || (npool(j).deleted == 0 && o == 1));
+      /* what was read decides: deleted => not among the words read from entries seen active (checked at every delete_self);
+       * kept => it is among them (nothing else keeps a node: C17) */
 #ifdef XV_HE
-    if (npool(j).deleted == 0) XV_OBL("hpscan.skips_inactive", gath_in_interval(in_cera[j], in_rera[j]));
+      if (npool(j).deleted == 0) XV_OBL("hpscan.skips_inactive", gath_in_interval(in_cera[j], in_rera[j]));
 #else
-    if (npool(j).deleted == 0) XV_OBL("hpscan.skips_inactive", gath_contains(in_addr[j]));
+      if (npool(j).deleted == 0) XV_OBL("hpscan.skips_inactive", gath_contains(in_addr[j]));
 #endif
-    if (npool(j).deleted) XV_CANARY("scan_int.deleted"); else XV_CANARY("scan_int.spared");
-  } else XV_OBL(OBL_CONSERVE, npool(j).deleted == 0 && o == 0);
+      if (npool(j).deleted) XV_CANARY("scan_int.deleted"); else XV_CANARY("scan_int.spared");
+    } else XV_OBL(OBL_CONSERVE, npool(j).deleted == 0 && o == 0);
+  }
 #endif
 }
 
@@ -488,21 +491,23 @@ void h_gather(void) {
 void h_reclaim(void) {
   /* retire list = own(0..nl-1) (kept by an earlier call), list to process = adopted(0..na-1), vector: any sorted content */
   havoc_state();
-  in_vec.n = nondet_size(); XV_ASSUME(in_vec.n <= VCAP);
+  in_vec.n = nondet_uchar(); XV_ASSUME(in_vec.n <= VCAP);
   for (unsigned i = 0; i <= VCAP; i++) in_vec.data[i] = nondet_uptr();
   XV_ASSUME(range_sorted(&in_vec.data[0], in_vec.n));
   struct vec v0 = in_vec;
-  unsigned j = nondet_uint(); XV_ASSUME(j < NN);
-  _Bool prot = vec_protects(&in_vec, NODE(j)); struct node* nx0 = npool(j).next;
+  _Bool prot[NN]; struct node* nx0[NN]; for (unsigned j = 0; j < NN; j++) { prot[j] = vec_protects(&in_vec, NODE(j)); nx0[j] = npool(j).next; }
   RECLAIM_REAL(&local_thread_data, in_na ? adopted(0) : (struct node*)0, &in_vec);
-  _Bool wf; unsigned len = chain_len(local_thread_data.retire_list, &wf); unsigned o = occ(local_thread_data.retire_list, NODE(j));
+  _Bool wf; unsigned len = chain_len(local_thread_data.retire_list, &wf);
   XV_OBL(OBL_CONSERVE, wf && local_thread_data.number_of_retired_nodes == len && !g_double_delete && g_search_unsorted == 0);
-  if (is_adopted(j)) {
-    XV_OBL(OBL_SPARES, !prot || (npool(j).deleted == 0 && o == 1));
-    XV_OBL("hpscan.skips_inactive", prot || (npool(j).deleted == 1 && o == 0));
-    if (prot) XV_CANARY("reclaim.spared"); else XV_CANARY("reclaim.deleted");
-  } else if (is_own(j)) XV_OBL(OBL_CONSERVE, npool(j).deleted == 0 && o == 1 && npool(j).next == nx0);
-  else XV_OBL(OBL_CONSERVE, npool(j).deleted == 0 && o == 0 && npool(j).next == nx0);
+  for (unsigned j = 0; j < NN; j++) {
+    unsigned o = occ(local_thread_data.retire_list, NODE(j));
+    if (is_adopted(j)) {
+      XV_OBL(OBL_SPARES, !prot[j] || (npool(j).deleted == 0 && o == 1));
+      XV_OBL("hpscan.skips_inactive", prot[j] || (npool(j).deleted == 1 && o == 0));
+      if (prot[j]) XV_CANARY("reclaim.spared"); else XV_CANARY("reclaim.deleted");
+    } else if (is_own(j)) XV_OBL(OBL_CONSERVE, npool(j).deleted == 0 && o == 1 && npool(j).next == nx0[j]);
+    else XV_OBL(OBL_CONSERVE, npool(j).deleted == 0 && o == 0 && npool(j).next == nx0[j]);
+  }
   { unsigned i = nondet_uint(); XV_ASSUME(i <= VCAP); XV_OBL(OBL_CONSERVE, in_vec.n == v0.n && in_vec.data[i] == v0.data[i]); }   /* the vector is only read */
   if (in_vec.n == VCAP && in_na == XV_LA && in_nl == XV_L) XV_CANARY("reclaim.full");
   if (in_vec.n == 0 && in_na) XV_CANARY("reclaim.empty_vector");
@@ -512,32 +517,34 @@ void h_reclaim(void) {
 /* =============================== ~thread_data =============================== */
 void h_dtor(void) {
   havoc_state();
-  unsigned j = nondet_uint(); XV_ASSUME(j < NN);
   size_t cnt0 = number_of_active_hps; _Bool had_cb = local_thread_data.control_block != 0; _Bool had_list = in_nl != 0;
-  unsigned ko = nondet_uint(); XV_ASSUME(ko < XV_E);
   DTOR(&local_thread_data);
-  XV_OBL("hpscan.search_sorted", g_search_unsorted == 0); XV_MODEL_ASSERT("vector capacity", !g_model_overflow);
+  XV_OBL("hpscan.search_sorted", g_search_unsorted == 0 && g_reclaim_unsorted == 0); XV_MODEL_ASSERT("vector capacity", !g_model_overflow);
   struct node* ab = global_thread_block_list.abandoned_retired_nodes;
-  _Bool wf; unsigned len = chain_len(ab, &wf); unsigned o = occ(ab, NODE(j));
+  _Bool wf; unsigned len = chain_len(ab, &wf);
   XV_OBL("hpscan.dtor.hands_over_all", local_thread_data.retire_list == 0 && local_thread_data.control_block == 0 && wf && !g_double_delete);
-  if (had_list) {
-    XV_OBL("hpscan.fence_first", g_fence_clock != 0 && (g_first_slot_clock == 0 || g_fence_clock < g_first_slot_clock));
-    if (is_own(j) || is_adopted(j)) {
-      XV_OBL("hpscan.dtor.hands_over_all", (npool(j).deleted == 1 && o == 0) || (npool(j).deleted == 0 && o == 1));
-      XV_OBL(OBL_SPARES, !PROTECTED(j) || npool(j).deleted == 0);
-      XV_OBL("hpscan.skips_inactive", PROTECTED(j) || npool(j).deleted == 1);
-      if (npool(j).deleted == 0) { XV_OBL("hpscan.dtor.hands_over_all", g_ab_cas_ok_n == 1 && XV_IS_RELEASE(g_ab_cas_o)); XV_CANARY("dtor.handed_over"); } else XV_CANARY("dtor.deleted");
-    } else XV_OBL("hpscan.dtor.hands_over_all", npool(j).deleted == 0 && o == 0);
-  } else {
-    /* nothing retired: nothing scanned, the global abandoned list is left alone */
-    XV_OBL("hpscan.dtor.hands_over_all", g_deletes == 0 && g_ab_xchg_n == 0 && g_ab_cas_ok_n == 0 && (is_adopted(j) ? o == 1 : o == 0) && len == in_na);
-    XV_CANARY("dtor.nothing_retired");
+  if (had_list) XV_OBL("hpscan.fence_first", g_fence_clock != 0 && (g_first_slot_clock == 0 || g_fence_clock < g_first_slot_clock));
+  for (unsigned j = 0; j < NN; j++) {
+    unsigned o = occ(ab, NODE(j));
+    if (had_list) {
+      if (is_own(j) || is_adopted(j)) {
+        _Bool prot = PROTECTED(j);
+        XV_OBL("hpscan.dtor.hands_over_all", (npool(j).deleted == 1 && o == 0) || (npool(j).deleted == 0 && o == 1));
+        XV_OBL(OBL_SPARES, !prot || npool(j).deleted == 0);
+        XV_OBL("hpscan.skips_inactive", prot || npool(j).deleted == 1);
+        if (npool(j).deleted == 0) { XV_OBL("hpscan.dtor.hands_over_all", g_ab_cas_ok_n == 1 && XV_IS_RELEASE(g_ab_cas_o)); XV_CANARY("dtor.handed_over"); } else XV_CANARY("dtor.deleted");
+      } else XV_OBL("hpscan.dtor.hands_over_all", npool(j).deleted == 0 && o == 0);
+    } else {
+      /* nothing retired: nothing scanned, the global abandoned list is left alone */
+      XV_OBL("hpscan.dtor.hands_over_all", g_deletes == 0 && g_ab_xchg_n == 0 && g_ab_cas_ok_n == 0 && (is_adopted(j) ? o == 1 : o == 0) && len == in_na);
+      if (j == 0) XV_CANARY("dtor.nothing_retired");
+    }
   }
   /* C17: the record is released for reuse (release store making it free), the active-slot count is given back */
   if (had_cb) {
-    XV_OBL("hpscan.dtor.releases_record", epool(in_cb).state == ES_free && g_state_store_n == 1 && g_state_store_k == (int)in_cb && XV_IS_RELEASE(g_state_store_o));
+    XV_OBL("hpscan.dtor.releases_record", g_state_store_n == 1 && g_state_store_k == (int)in_cb && g_state_store_v == ES_free && XV_IS_RELEASE(g_state_store_o));
     XV_OBL("hpscan.dtor.releases_record", g_cnt_sub_n == 1 && number_of_active_hps == cnt0 - XV_K);
-    XV_OBL("hpscan.dtor.releases_record", ko == in_cb || epool(ko).state == in_state[ko]);
+    for (unsigned k = 0; k < XV_E; k++) XV_OBL("hpscan.dtor.releases_record", epool(k).state == (k == in_cb ? ES_free : in_state[k]));
     XV_CANARY("dtor.released");
   } else { XV_OBL("hpscan.dtor.releases_record", g_state_store_n == 0 && g_cnt_sub_n == 0 && number_of_active_hps == cnt0); XV_CANARY("dtor.no_record"); }
 }
